@@ -719,3 +719,238 @@ _base_scn_ui = scenarios
 
 def scenarios():
     return _base_scn_ui() + [userid_codec()]
+
+
+def trust_codec(hl):
+    """Trust packets (implementation-defined contents, RFC 4880 5.10): parse consumes exactly the announced body; an unedited packet is
+    written back with the octets that were read (D37: any length); once the level is set to something else, the packet is written from
+    its level and flags (two octets) - no stale copy of the octets that were read (D40)"""
+    label = 'C08/Trust.parse+__bytearray__[body of %d octet%s]' % (hl, '' if hl == 1 else 's')
+    T = P + 'Trust'
+
+    def gen(repo):
+        r = scn.Run(repo, T, 'parse', label)
+        ex, st = r.ex, r.st
+        OLD, HDR = z3.Const('RECEIVED', B), z3.Const('HEADER', B)
+        _hdr(r, z3.IntVal(hl))
+        st.pc += [z3.Length(OLD) >= hl]
+        k = z3.Int('k!octet')
+        st.pc.append(z3.ForAll([k], z3.Implies(z3.And(k >= 0, k < z3.Length(OLD)), z3.And(OLD[k] >= 0, OLD[k] < 256))))
+        buf = ex.new_buf(st, OLD)
+        me = E.VObj(T, 'pkt')
+        r.hook('pgpy.packet.types.Packet', '__bytearray__', scn.method_hook(lambda ex, st, o, a: [(st, ex.new_buf(st, HDR))]))
+        body = z3.Extract(OLD, 0, hl)
+        lk = repo.lookup(T, '__bytearray__')
+        ser = lambda s: ex.call_func(E.VFunc(lk[2], None, cls=lk[1], self_val=me, mod=repo.classes[lk[1]].module), [], {}, s, {'mod': repo.classes[lk[1]].module})
+        nret = 0
+        for pi, (s, v) in enumerate(r.call(me, [buf])):
+            if isinstance(v, E.Raise):
+                r.oblige(s, 'safety(%s)/p%d' % (v.exc.split(':')[0], pi), z3.BoolVal(False), v.where)
+                continue
+            nret += 1
+            r.oblige(s, 'consumes-exactly-the-body/p%d' % pi, s.heap[buf.cell] == z3.Extract(OLD, hl, z3.Length(OLD) - hl))
+            for qi, (s2, v2) in enumerate(ser(s.clone())):
+                if isinstance(v2, E.Raise):
+                    r.oblige(s2, 'unedited:safety(%s)/p%d.%d' % (v2.exc.split(':')[0], pi, qi), z3.BoolVal(False), v2.where)
+                    continue
+                r.oblige(s2, 'unedited:header-then-the-octets-that-were-read/p%d.%d' % (pi, qi), ex.seq(v2, s2) == z3.Concat(HDR, body))
+            # the level set to Never (3) through the API
+            s3 = s.clone()
+            for qi, (s4, _) in enumerate(ex.setattr(me, 'trustlevel', E.VInt(3), s3, {'mod': 'pgpy.packet.packets'}, None)):
+                for ri, (s5, v5) in enumerate(ser(s4)):
+                    if isinstance(v5, E.Raise):
+                        r.oblige(s5, 'edited:safety(%s)/p%d.%d.%d' % (v5.exc.split(':')[0], pi, qi, ri), z3.BoolVal(False), v5.where)
+                        continue
+                    out = ex.seq(v5, s5)
+                    n = z3.Length(out)
+                    r.oblige(s5, 'edited:header-then-two-octets-whose-low-four-bits-are-the-new-level/p%d.%d.%d' % (pi, qi, ri),
+                             z3.And(n == z3.Length(HDR) + 2, z3.Extract(out, 0, z3.Length(HDR)) == HDR, out[n - 1] % 16 == 3))
+        r.oblige(st, 'cover-a-parse-that-returns', z3.BoolVal(nret > 0))
+        return r.result()
+    return Scenario(label, T + '.parse', gen, props=('C08', 'C14'))
+
+
+_base_scn_tr = scenarios
+
+
+def scenarios():
+    return _base_scn_tr() + [trust_codec(n) for n in (1, 2, 4)]
+
+
+def pkesk_codec():
+    """PKESessionKeyV3 (RFC 4880 5.1): parse = eight key id octets (kept as upper-case hex), algorithm octet, then the algorithm-specific
+    fields read by that algorithm's ciphertext class from the same buffer; __bytearray__ = header, key id octets, algorithm, fields"""
+    label = 'C08/PKESessionKeyV3.parse+__bytearray__'
+    PK = P + 'PKESessionKeyV3'
+    CT = {1: 'RSACipherText', 2: 'RSACipherText', 16: 'ElGCipherText', 20: 'ElGCipherText', 18: 'ECDHCipherText'}
+
+    def gen(repo):
+        obls, funcs, paths = [], [], 0
+        HEX, UP, UNHEX = z3.Function('HEXLIFY', B, B), z3.Function('STR_UPPER', B, B), z3.Function('UNHEXLIFY', B, B)
+        for alg, ctname in sorted(CT.items()):
+            r = scn.Run(repo, PK, 'parse', '%s[parse,algorithm %d]' % (label, alg))
+            ex, st = r.ex, r.st
+            OLD = z3.Const('RECEIVED', B)
+            HL = z3.Int('header_length')
+            _hdr(r, HL)
+            st.pc += [z3.Length(OLD) >= 9, OLD[8] == alg, HL >= 10]
+            buf = ex.new_buf(st, OLD)
+            me = E.VObj(PK, 'pkt')
+            r.set('pkt', 'ct', E.VNone())
+            F = 'pgpy.packet.fields.'
+            for c in set(CT.values()):
+                r.hook(F + c, '__call__', (lambda c: lambda ex, st, cls, a: [(st, E.VObj(F + c, 'fields'))])(c))
+
+                def ctparse(ex, st, o, a):
+                    st.ghost['ct_parse'] = (o, a[0], st.heap[a[0].cell] if isinstance(a[0], E.VBuf) else None)
+                    return [(st, E.VNone())]
+                r.hook(F + c, 'parse', scn.method_hook(ctparse))
+            for pi, (s, v) in enumerate(r.call(me, [buf])):
+                paths += 1
+                if isinstance(v, E.Raise):
+                    r.oblige(s, 'safety(%s)/p%d' % (v.exc.split(':')[0], pi), z3.BoolVal(False), v.where)
+                    continue
+                enc = s.heap.get(('pkt', '_encrypter'))
+                okk = isinstance(enc, E.VStr) and enc.z is not None
+                r.oblige(s, 'key-id-is-the-first-eight-octets-in-upper-case-hex/p%d' % pi, z3.And(z3.BoolVal(okk), enc.z == UP(HEX(z3.Extract(OLD, 0, 8))) if okk else z3.BoolVal(False)))
+                pa = s.heap.get(('pkt', '_pkalg'))
+                r.oblige(s, 'algorithm-is-the-ninth-octet/p%d' % pi, ex.as_int(pa) == alg if isinstance(pa, (E.VInt, E.VBool)) else z3.BoolVal(False))
+                cp = s.ghost.get('ct_parse')
+                okc = cp is not None and isinstance(cp[0], E.VObj) and cp[0].cls == F + ctname and cp[1] is buf and cp[2] is not None
+                r.oblige(s, 'the-fields-of-that-algorithm-are-read-from-the-same-buffer,right-after-the-algorithm-octet/p%d' % pi,
+                         z3.And(z3.BoolVal(okc), cp[2] == z3.Extract(OLD, 9, z3.Length(OLD) - 9) if okc else z3.BoolVal(False)))
+                ctv = s.heap.get(('pkt', 'ct'))
+                r.oblige(s, 'and-kept-in-the-packet/p%d' % pi, z3.BoolVal(okc and ctv is cp[0]))
+            res = r.result()
+            obls += res['obligations']
+            funcs += res['funcs']
+        # serialisation
+        r = scn.Run(repo, PK, '__bytearray__', label + '[bytes]')
+        ex, st = r.ex, r.st
+        HDR, KID, FIELDS, ALG = z3.Const('HEADER_AND_VERSION', B), z3.Const('KEY_ID_HEX', B), z3.Const('FIELDS', B), z3.Int('algorithm')
+        st.pc += [ALG >= 0, ALG < 256]
+        for c in ('pgpy.packet.types.Packet', 'pgpy.packet.types.VersionedPacket'):
+            r.hook(c, '__bytearray__', scn.method_hook(lambda ex, st, o, a: [(st, ex.new_buf(st, HDR))]))
+        r.set('pkt', '_encrypter', E.VStr(z=KID))
+        r.set('pkt', '_pkalg', E.VInt(ALG, enum='pgpy.constants.PubKeyAlgorithm'))
+        r.set('pkt', 'ct', E.VObj('pgpy.packet.fields.RSACipherText', 'fields'))
+        r.hook('pgpy.packet.fields.RSACipherText', '__bytearray__', scn.method_hook(lambda ex, st, o, a: [(st, ex.new_buf(st, FIELDS))]))
+        for pi, (s, v) in enumerate(r.call(E.VObj(PK, 'pkt'), [])):
+            paths += 1
+            if isinstance(v, E.Raise):
+                r.oblige(s, 'safety(%s)/p%d' % (v.exc.split(':')[0], pi), z3.BoolVal(False), v.where)
+                continue
+            r.oblige(s, 'header,key-id-octets,algorithm,fields/p%d' % pi, ex.seq(v, s) == z3.Concat(HDR, UNHEX(KID), z3.Unit(ALG), FIELDS))
+        res = r.result()
+        return {'obligations': obls + res['obligations'], 'funcs': funcs + res['funcs'], 'paths': paths}
+    return Scenario(label, PK + '.parse', gen, props=('C08', 'C03'))
+
+
+def skesk_codec():
+    """SKESessionKeyV4 (RFC 4880 5.3): parse = the S2K specifier read by the String2Key codec (no IV) from the body with a usage octet put in
+    front, and whatever the announced length leaves as the encrypted session key; __bytearray__ = header, the specifier without that usage
+    octet, the encrypted session key"""
+    label = 'C08/SKESessionKeyV4.parse+__bytearray__'
+    SK, S2K = P + 'SKESessionKeyV4', 'pgpy.packet.fields.String2Key'
+
+    def gen(repo):
+        r = scn.Run(repo, SK, 'parse', label + '[parse]')
+        ex, st = r.ex, r.st
+        OLD, HL, N = z3.Const('RECEIVED', B), z3.Int('header_length'), z3.Int('octets_the_specifier_takes')
+        _hdr(r, HL)
+        # contract of String2Key.parse(buffer, iv=False) (proved in its own scenarios): takes the usage octet and N-1 more; __len__ = N
+        st.pc += [N >= 3, HL >= N, z3.Length(OLD) >= HL - 1]
+        buf = ex.new_buf(st, OLD)
+        me = E.VObj(SK, 'pkt')
+        r.set('pkt', 's2k', E.VObj(S2K, 's2k'))
+
+        def s2kparse(ex, st, o, a, kws):
+            S = st.heap[a[0].cell]
+            st.ghost['s2k_parse'] = (a[0], S, kws.get('iv'))
+            bad = st.clone()
+            st.pc.append(z3.Length(S) >= N)
+            st.heap[a[0].cell] = z3.Extract(S, N, z3.Length(S) - N)
+            return [(st, E.VNone())]
+        s2kparse.wants_kws = True
+        r.hook(S2K, 'parse', scn.method_hook(s2kparse))
+        r.hook(S2K, '__len__', scn.method_hook(lambda ex, st, o, a: [(st, E.VInt(N))]))
+        for pi, (s, v) in enumerate(r.call(me, [buf])):
+            if isinstance(v, E.Raise):
+                r.oblige(s, 'safety(%s)/p%d' % (v.exc.split(':')[0], pi), z3.BoolVal(False), v.where)
+                continue
+            sp = s.ghost.get('s2k_parse')
+            ok = sp is not None and sp[0] is buf
+            r.oblige(s, 'specifier-read-from-the-body-with-usage-octet-255-in-front,without-iv/p%d' % pi,
+                     z3.And(z3.BoolVal(ok and isinstance(sp[2], E.VBool)), z3.And(sp[1] == z3.Concat(z3.Unit(z3.IntVal(255)), OLD), z3.Not(ex.truth(sp[2], s))) if ok and sp[2] is not None else z3.BoolVal(False)))
+            ct = s.heap.get(('pkt', 'ct'))
+            r.oblige(s, 'encrypted-session-key-is-what-the-announced-length-leaves/p%d' % pi, ex.seq(ct, s) == z3.Extract(OLD, N - 1, HL - N))
+            r.oblige(s, 'consumes-what-the-specifier-took-plus-that/p%d' % pi, s.heap[buf.cell] == z3.Extract(OLD, HL - 1, z3.Length(OLD) - (HL - 1)))
+        res = r.result()
+        r2 = scn.Run(repo, SK, '__bytearray__', label + '[bytes]')
+        HDR, SPEC, CT = z3.Const('HEADER_AND_VERSION', B), z3.Const('SPECIFIER_WITH_USAGE_OCTET', B), z3.Const('ENCRYPTED_SESSION_KEY', B)
+        r2.st.pc.append(z3.Length(SPEC) >= 1)
+        for c in ('pgpy.packet.types.Packet', 'pgpy.packet.types.VersionedPacket'):
+            r2.hook(c, '__bytearray__', scn.method_hook(lambda ex, st, o, a: [(st, ex.new_buf(st, HDR))]))
+        r2.set('pkt', 's2k', E.VObj(S2K, 's2k'))
+        r2.set('pkt', 'ct', r2.ex.new_buf(r2.st, CT))
+        r2.hook(S2K, '__bytearray__', scn.method_hook(lambda ex, st, o, a: [(st, ex.new_buf(st, SPEC))]))
+        for pi, (s, v) in enumerate(r2.call(E.VObj(SK, 'pkt'), [])):
+            if isinstance(v, E.Raise):
+                r2.oblige(s, 'safety(%s)/p%d' % (v.exc.split(':')[0], pi), z3.BoolVal(False), v.where)
+                continue
+            r2.oblige(s, 'header,specifier-without-its-usage-octet,encrypted-session-key/p%d' % pi,
+                      r2.ex.seq(v, s) == z3.Concat(HDR, z3.Extract(SPEC, 1, z3.Length(SPEC) - 1), CT))
+        res2 = r2.result()
+        return {'obligations': res['obligations'] + res2['obligations'], 'funcs': res['funcs'] + res2['funcs'], 'paths': 0}
+    return Scenario(label, SK + '.parse', gen, props=('C08', 'C03'))
+
+
+def opaque_codec():
+    """Opaque (a packet of a type or version PGPy has no class for): the body is kept as it is and written back as it is"""
+    label = 'C08/Opaque.parse+__bytearray__'
+    OP = 'pgpy.packet.types.Opaque'
+
+    def gen(repo):
+        obls, funcs = [], []
+        for versioned in (False, True):
+            r = scn.Run(repo, OP, 'parse', '%s[parse,%s header]' % (label, 'versioned' if versioned else 'plain'))
+            ex, st = r.ex, r.st
+            OLD, HL = z3.Const('RECEIVED', B), z3.Int('header_length')
+            hcls = 'pgpy.packet.types.VersionedHeader' if versioned else 'pgpy.packet.types.Header'
+            r.set('pkt', 'header', E.VObj(hcls, 'hdr'))
+            r.set('hdr', '_len', E.VInt(HL))
+            if versioned:
+                r.set('hdr', '_version', E.VInt(z3.Int('version')))
+            r.hook('pgpy.packet.types.Packet', 'parse', scn.mconst(E.VNone()))
+            n = HL - 1 if versioned else HL
+            st.pc += [n >= 0, z3.Length(OLD) >= n]
+            buf = ex.new_buf(st, OLD)
+            for pi, (s, v) in enumerate(r.call(E.VObj(OP, 'pkt'), [buf])):
+                if isinstance(v, E.Raise):
+                    r.oblige(s, 'safety(%s)/p%d' % (v.exc.split(':')[0], pi), z3.BoolVal(False), v.where)
+                    continue
+                pl = s.heap.get(('pkt', '_payload'))
+                r.oblige(s, 'payload-is-the-body%s/p%d' % ('-after-the-version-octet-the-header-took' if versioned else '', pi), ex.seq(pl, s) == z3.Extract(OLD, 0, n))
+                r.oblige(s, 'consumes-exactly-that/p%d' % pi, s.heap[buf.cell] == z3.Extract(OLD, n, z3.Length(OLD) - n))
+            res = r.result()
+            obls += res['obligations']
+            funcs += res['funcs']
+        r2 = scn.Run(repo, OP, '__bytearray__', label + '[bytes]')
+        HDR, PAY = z3.Const('HEADER', B), z3.Const('PAYLOAD', B)
+        r2.hook('pgpy.packet.types.Packet', '__bytearray__', scn.method_hook(lambda ex, st, o, a: [(st, ex.new_buf(st, HDR))]))
+        r2.set('pkt', '_payload', E.VBytes(PAY))
+        for pi, (s, v) in enumerate(r2.call(E.VObj(OP, 'pkt'), [])):
+            if isinstance(v, E.Raise):
+                r2.oblige(s, 'safety(%s)/p%d' % (v.exc.split(':')[0], pi), z3.BoolVal(False), v.where)
+                continue
+            r2.oblige(s, 'header-then-the-payload/p%d' % pi, r2.ex.seq(v, s) == z3.Concat(HDR, PAY))
+        res2 = r2.result()
+        return {'obligations': obls + res2['obligations'], 'funcs': funcs + res2['funcs'], 'paths': 0}
+    return Scenario(label, OP + '.parse', gen, props=('C08', 'C05'))
+
+
+_base_scn_pk = scenarios
+
+
+def scenarios():
+    return _base_scn_pk() + [pkesk_codec(), skesk_codec(), opaque_codec()]
